@@ -282,6 +282,11 @@ def guard_cases():
         out.append({"guard": "chain", "n": n, "expect": "error"})
     out.append({"guard": "self", "expect": "error"})
     out.append({"guard": "cycle2", "expect": "error"})
+    # cycles that pass through items unwrapping to nothing (in each of the empty forms) or to None elements
+    for form in ("tuple", "list", "iter"):
+        for pos in ("before", "after"):
+            out.append({"guard": "cycle_with_empty", "form": form, "empty_at": pos, "expect": "error"})
+    out.append({"guard": "cycle3_with_empty", "expect": "error"})
     out.append({"guard": "chain_then_tuple", "n": 60, "expect": "ok"})
     out.append({"guard": "two_chains", "n": 80, "expect": "ok"})
     return out
@@ -302,6 +307,17 @@ def build_guard(g):
     if kind == "cycle2":
         # A -> B -> A: B's child refers to A by name (realize() memoises by name)
         a = {"name": 1, "u": "cycle", "ch": [{"name": 2, "u": "cycle", "ch": [{"name": 1, "u": "cycle", "ch": []}]}]}
+        return {"root": a, "elab": {}}
+    if kind == "cycle_with_empty":
+        # A -> (E, A) or (A, E) with E -> an empty tuple / list / iterator: never reaches a frame or a leaf
+        e = {"name": 2, "u": "empty" if g["form"] == "tuple" else ("emptylist" if g["form"] == "list" else "emptyiter"), "ch": []}
+        back = {"name": 1, "u": "tuple", "ch": []}
+        ch = [e, back] if g["empty_at"] == "before" else [back, e]
+        return {"root": {"name": 1, "u": g["form"], "ch": ch}, "elab": {}}
+    if kind == "cycle3_with_empty":
+        # A -> B ; B -> (E, None, C) ; C -> A
+        a = {"name": 1, "u": "cycle", "ch": [{"name": 2, "u": "tuple", "ch": [
+            {"name": 3, "u": "empty", "ch": []}, None, {"name": 4, "u": "cycle", "ch": [{"name": 1, "u": "cycle", "ch": []}]}]}]}
         return {"root": a, "elab": {}}
     if kind == "chain_then_tuple":
         node = {"name": 1, "u": "tuple", "ch": [{"f": 0}, {"f": 1}]}
